@@ -86,6 +86,7 @@ pub open spec fn i_count(s: S, l: Seq<GcPtr>) -> bool {
 pub open spec fn inv_w(s: S, l: Seq<GcPtr>, cur: int) -> bool {
     i_list(s, l, cur) && i_colour(s, l, cur) && i_live(s) && i_tri(s) && i_safe(s, l, cur) && i_count(s, l)
 }
+#[verifier::opaque]
 pub open spec fn inv(s: S) -> bool { exists|l: Seq<GcPtr>, cur: int| #[trigger] inv_w(s, l, cur) }
 
 /// no callback is running: nothing is held on a stack, no builder is alive (A-borrowck: collection methods
